@@ -10,6 +10,7 @@ Model lines (answered by the state machines of `Model.lean`):
 * `cbc <iv> <table> (e|d <blocks>)*` — one `cbc` object after `set_iv`; `<table>` lists the block
   function as `in:out` pairs recorded from libcrypto's raw AES (oracle answers for the external);
   every `e`/`d` group is one `encrypt`/`decrypt` call on whole 16-byte blocks.
+* `cbcuse <bits> <key|none> <iv|none>` — `set_key`/`set_iv` (when given) then `encrypt`: which error, if any.
 * `key <text>` — `key::set_hex`; `keyfile <content>` — `key::read_from_file`.
 Judge lines (`J …`, answered by the definitions of `Spec.lean` only) evaluate the property predicate
 on an output of the implementation. -/
@@ -96,6 +97,12 @@ def step (_ : Unit) (line : String) : Unit × String :=
         | some outs => " ".intercalate outs
         | none => "bad-op")
       | _, _ => "bad-op"
+    | ["cbcuse", bits, k, iv] =>
+      let opt (x : String) : Option (Option Bytes) := if x == "none" then some none else (parseHex x).map some
+      (match bits.toNat?, opt k, opt iv with
+      | some b, some k, some iv => (match cbcUse b k iv with
+        | .ok => "ok" | .keySize => "err-key-size" | .ivSize => "err-iv-size" | .noKey => "err-no-key" | .noIv => "err-no-iv")
+      | _, _, _ => "bad-op")
     | ["key", h] => match parseHex h with
       | some s => keyStr (setHex s)
       | none => "bad-op"
